@@ -420,7 +420,17 @@ fn run_case(c: &Case, st: &mut Stats) -> Result<(), String> {
 }
 
 /// Violation class: what kind of part makes the case fail (for a stable, small set of keys).
-fn class_of(c: &Case) -> String {
+fn class_of(c: &Case, what: &str) -> String {
+    // an unquoted keyword part is one root cause (needs_quotes knows no reserved words): class by symptom only;
+    // which keyword in which role fails is reported in the counters
+    if c.parts.iter().any(|p| KEYWORDS.contains(&p.as_str())) {
+        let symptom = if what.contains("` failed: ") {
+            if what.contains("ParserError") { "statement-does-not-parse" } else { "statement-rejected" }
+        } else {
+            "resolves-to-something-else"
+        };
+        return format!("{}/unquoted-keyword/{symptom}", c.kind);
+    }
     let mut feats: Vec<&str> = vec![];
     let any = |f: &dyn Fn(&str) -> bool| c.parts.iter().any(|p| f(p));
     if any(&|p| KEYWORDS.contains(&p)) {
@@ -448,6 +458,21 @@ fn class_of(c: &Case) -> String {
         feats.push("plain");
     }
     format!("{}/{}-part/{}", c.kind, c.parts.len(), feats.join("+"))
+}
+
+/// `role=keyword` for every keyword part of the case (roles: catalog / schema / table / column).
+fn keyword_roles(c: &Case) -> Vec<String> {
+    let n = c.parts.len();
+    let role = |i: usize| -> &'static str {
+        let from_end = n - 1 - i;
+        let table_roles = ["table", "schema", "catalog"];
+        if c.kind == "column" || c.kind == "pcolumn" {
+            if from_end == 0 { "column" } else { table_roles[(from_end - 1).min(2)] }
+        } else {
+            table_roles[from_end.min(2)]
+        }
+    };
+    c.parts.iter().enumerate().filter(|(_, p)| KEYWORDS.contains(&p.as_str())).map(|(i, p)| format!("{}={p}", role(i))).collect()
 }
 
 fn identifiers(alphabet: &[char], max_len: usize) -> Vec<String> {
@@ -546,6 +571,12 @@ fn explore(ctx: &Ctx) {
         match r {
             Ok(()) => {
                 let sql_kind = c.kind == "resolve" || c.kind == "column";
+                if sql_kind {
+                    let kr = keyword_roles(c);
+                    if kr.len() == 1 {
+                        ctx.count(&format!("single_keyword_sql_cases[{}/{}: pass]", c.kind, kr[0]), 1);
+                    }
+                }
                 if c.parts.iter().any(|p| !simple(p) || KEYWORDS.contains(&p.as_str())) {
                     if sql_kind || c.parts.len() <= 2 {
                         ctx.nontrivial(c);
@@ -567,7 +598,13 @@ fn explore(ctx: &Ctx) {
                     ctx.machinery_error(what);
                     return;
                 }
-                let class = class_of(c);
+                let class = class_of(c, &what);
+                if c.kind == "resolve" || c.kind == "column" {
+                    let kr = keyword_roles(c);
+                    if kr.len() == 1 {
+                        ctx.count(&format!("single_keyword_sql_cases[{}/{}: fail]", c.kind, kr[0]), 1);
+                    }
+                }
                 let size = |c: &Case| (c.parts.len(), c.parts.iter().map(|p| p.chars().count()).sum::<usize>(), c.parts.clone());
                 let mut g = failures.lock().unwrap();
                 match g.get_mut(&class) {
